@@ -18,13 +18,32 @@ rule("C20.c", "cost, delivered volume and covered steps of an order use one step
 rule("C20.f", "the order report de-duplicates the mapping by index and reads x and c at the variable label", floor=2)
 
 
-@analysis("orderbook", ["C20.a", "C20.b", "C20.c", "C20.f"])
+rule("C20.l", "an order takes part whenever its window intersects the horizon: a test that skips an order looks at both ends of its "
+              "window (start < horizon end and end > horizon start), never at one end alone", floor=0)
+
+
+@analysis("orderbook", ["C20.a", "C20.b", "C20.c", "C20.f", "C20.l"])
 def run(ctx):
     p = ctx.p
     ob = p.cls("OrderBook")
     fn = ob.methods.get("setup_optim_problem")
     ctx.require(fn is not None, "OrderBook.setup_optim_problem vanished")
     ff = ctx.flow(fn)
+    # ---- C20.l skipping an order
+    org_l = ctx.origins(fn)
+    for lp in [s0 for s0 in au.walk_stmts(fn.body) if isinstance(s0, ast.For)]:
+        for iff in [s0 for s0 in lp.body if isinstance(s0, ast.If) and any(isinstance(x, ast.Continue) for x in au.walk_stmts(s0.body))]:
+            ends = set()
+            for nm in [x for x in au.walk_local(iff.test) if isinstance(x, ast.Name)]:
+                for y in org_l.nodes(nm, iff):
+                    if isinstance(y, ast.Subscript) and au.const_str(y.slice) in ("start", "end") and "orders" in au.U(y.value):
+                        ends.add(au.const_str(y.slice))
+            if not ends:
+                continue
+            ctx.ob("C20.l", fn, "if %s: continue" % au.short(iff.test, 60), ends == {"start", "end"},
+                   "an order is skipped by a test on its %s alone: an order that starts before the horizon and ends inside it (or starts inside "
+                   "and ends after it) intersects the horizon and has to deliver in the covered steps, but it is skipped like an order wholly "
+                   "outside - it pays nothing and delivers nothing (payment 0 instead of -1728 in the demo)" % sorted(ends)[0], node=iff)
     # ---- C20.a
     carriers = {}
     for st in fn.body:
